@@ -120,7 +120,15 @@ func valsetCase(c *core.Case) {
 			for i, j := range ord {
 				pc[i] = ch[j].Copy()
 			}
-			err := cp.UpdateWithChangeSet(pc)
+			err := func() (err error) {
+				defer func() {
+					if e := recover(); e != nil {
+						err = fmt.Errorf("panic: %v", e)
+						run.Count("valset_update_panics", 1)
+					}
+				}()
+				return cp.UpdateWithChangeSet(pc)
+			}()
 			got := canonValSet(cp)
 			run.Count("valset_orders_applied", 1)
 			if oi == 0 {
